@@ -79,7 +79,7 @@ def run_prop(prop, tier, seed):
     # 3. build harness + driver from the current tree
     engines_out = []
     oracle_failures = []
-    rc, o, vh = core.build_harness()
+    rc, o, vh = core.build_harness(spec.get("go_tags", ()))
     if rc != 0:
         broken.append(("correspondence", "harness build against /repo (tag verif)", first_error(o)))
         vh = None
@@ -243,10 +243,11 @@ def setup():
     print(o[-2000:])
     if rc != 0:
         return rc
-    rc, o, _ = core.build_harness()
-    print(o[-2000:])
-    if rc != 0:
-        return rc
+    for tags in sorted({tuple(sorted(sp.get("go_tags", ()))) for sp in specs.values()}):
+        rc, o, _ = core.build_harness(tags)
+        print(o[-2000:])
+        if rc != 0:
+            return rc
     seen = set()
     for p, spec in specs.items():
         for name, pkg in spec.get("binaries", {}).items():
@@ -270,7 +271,7 @@ def replay(path):
             print(" - %s %s\n   %s" % (b["kind"], b["name"], b["detail"][:1000]))
         print("re-running the quick check of %s" % prop)
         return run_prop(prop, "quick", 1)
-    rc, o, vh = core.build_harness()
+    rc, o, vh = core.build_harness(PROPS.get(prop, {}).get("go_tags", ()))
     if rc != 0:
         print(o[-2000:])
         return 3
